@@ -171,8 +171,12 @@ def _ast_mode(fn, methods):
 def _owners():
     import typedpy as T
     Key = type("C04Key", (T.Structure,), {"name": T.String, "tags": T.Array[T.String], "_required": ["name"]})
-    inner = lambda: {"list": [{"k": [1]}, [2, 3]], "deque": collections.deque([{"k": [1]}, [2, 3]]),
-                     "dict": {Key(name="a", tags=["t"]): [1, 2], "j": {"z": [3]}}}
+    # elements of every kind the defensive copy has to look into: plain containers, and "immutable containers" (frozenset,
+    # tuple) holding mutable hashable objects (Structure instances)
+    fz = lambda: frozenset({Key(name="fz", tags=["t"])})
+    tp = lambda: (Key(name="tp", tags=["t"]), [1])
+    inner = lambda: {"list": [{"k": [1]}, [2, 3], fz(), tp()], "deque": collections.deque([{"k": [1]}, [2, 3], fz(), tp()]),
+                     "dict": {Key(name="a", tags=["t"]): [1, 2], "j": {"z": [3]}, "f": fz(), "t": tp()}}
     nested = lambda: {"list": [[1, 2], [3]], "deque": collections.deque([[1, 2], [3]]), "dict": {"a": [1, 2], "b": [3]}}
     fields_untyped = lambda imm: {"list": T.Array(immutable=imm), "deque": T.Deque(immutable=imm), "dict": T.Map(immutable=imm)}
     fields_nested = lambda imm: {"list": T.Array(items=T.Array[T.Integer], immutable=imm),
@@ -366,6 +370,15 @@ def ctor_rows():
             except Exception:
                 continue
             rows.append((owner, kind, retains))
+    # an UNDECLARED keyword (additional property) of an ImmutableStructure
+    for label, val in (("additional-property-list", lambda: [1, [2]]), ("additional-property-dict", lambda: {"k": [1]})):
+        try:
+            cls = type("C04Extra", (T.ImmutableStructure,), {"a": T.Integer, "_required": []})
+            arg = val()
+            x = cls(a=1, extra=arg)
+            rows.append(("immutable-structure", label, bool(aliasprobe.shared_nodes(arg, x))))
+        except Exception:
+            continue
     return rows
 
 
